@@ -3,6 +3,7 @@
    model of DocumentSymbolGeneratorFromAst::generate_symbols on ANY tree (not only parser outputs). *)
 From Coq Require Import Permutation.
 From GoldV Require Import Base Tokens Lexer AstKinds Tree Outline OutlineProofs.
+From GoldV Require Import PComb Grammar RTComb ExprRT StmtRT DeclRT FileRT Unlex TextLevel.
 
 (* the loop's `children.as_mut().unwrap()` never panics *)
 Theorem C12_outline_no_panic : forall root, outline_run root = Some (outline root).
@@ -212,6 +213,22 @@ Proof.
   apply perm_skip. apply perm_swap.
 Qed.
 
+(* ---------- from the TEXT to the outline ----------
+   For every text that is the print of printable lexemes (Model/Unlex.v) whose tokens form a file of the grammar
+   with top-level declarations ns: the text lexes without error to those lexemes, parses (memoisation on) with
+   zero diagnostics to the root over ns, and its outline is the entries of ns in order under the first header:
+   exactly one entry per top-level constant, type, field, procedure and function, at most one container.  The
+   lexer round trip (C05_lex_unlex), the file theorem (C06_file_roundtrip) and C12_outline_char on one object. *)
+Theorem C12_outline_of_text : forall lx f ns, forallb printable lx = true -> Decls f (fst (lex (unlex lx))) ns ->
+  map lx_obs (fst (lex (unlex lx))) = lx /\ snd (lex (unlex lx)) = [] /\
+  exists root, fst (parse_gold (fst (lex (unlex lx)))) = Ok [] root /\
+               cdiags (snd (parse_gold (fst (lex (unlex lx))))) = [] /\
+               nchildren root = ns /\
+               outline root = wrap (header ns) (filter_map entry ns) /\
+               filter_map entry ns = map decl_sym (filter is_decl ns) /\
+               (length (filter is_container (outline root)) <= 1)%nat.
+Proof. exact outline_of_text. Qed.
+
 Print Assumptions C12_outline_no_panic.
 Print Assumptions C12_outline_char.
 Print Assumptions C12_entry_defined_iff.
@@ -232,3 +249,4 @@ Print Assumptions C12_example_class.
 Print Assumptions C12_example_flat.
 Print Assumptions C12_example_two_headers.
 Print Assumptions C12_example_edits.
+Print Assumptions C12_outline_of_text.
